@@ -678,10 +678,14 @@ class Evaluator:
                     not node.keywords:
                 vals = [self.ev(a) for a in node.args]
                 if not any(isinstance(v, Abs) for v in vals):
-                    r = {"reversed": reversed, "enumerate": enumerate,
-                         "zip": zip, "range": range, "any": any, "all": all,
-                         "sum": sum, "max": max, "min": min,
-                         "dict": dict}[f.id](*vals)
+                    try:
+                        r = {"reversed": reversed, "enumerate": enumerate,
+                             "zip": zip, "range": range, "any": any,
+                             "all": all, "sum": sum, "max": max, "min": min,
+                             "dict": dict}[f.id](*vals)
+                    except (ValueError, TypeError) as e:
+                        # e.g. min() of an empty sequence
+                        raise Raised("builtins." + type(e).__name__)
                     if f.id in ("reversed", "enumerate", "zip", "range"):
                         return list(r)
                     return r
